@@ -469,7 +469,45 @@ def rule_r7(ctx):
     ctx.r.floor(rid, n, 3, "socket map mutation sites")
 
 
-RULES = [rule_r1, rule_r2, rule_r3, rule_r4, rule_r5, rule_r6, rule_r7]
+def rule_r8(ctx):
+    rid = "C13.R8"
+    ctx.r.rule(rid, "channel construction: registering the connection in the socket map is the last fallible step (a setup fault never leaves a half-built channel in the polled set)")
+    from ..cfg import expr_may_raise
+    p = ctx.p
+    cg = get_callgraph(p)
+    chan = p.cls("channel.HTTPChannel")
+    reg_funcs = {q for q in p.functions if q.endswith(".add_channel")}
+    n_checked = 0
+    # every function on the construction chain: HTTPChannel.__init__ and what it calls up to add_channel
+    init = chan.lookup("__init__")
+    chain = cg.reachable([(init, chan)])
+    for q in sorted(chain):
+        f = p.functions[q]
+        if q in reg_funcs and f.cls is not None and f.cls.qual == "wasyncore.dispatcher":
+            continue
+        g = cfg_of(f)
+        regs = []
+        for n, c in find_calls(g, lambda c: True):
+            tg = cg.callees(c)
+            if any(t.qual in reg_funcs or any(r in cg.reachable([t]) for r in reg_funcs) for t in tg):
+                regs.append(n)
+        for rn in regs:
+            n_checked += 1
+            after = g.reach(rn, follow_exc=False)
+            bad = [m for m in g.nodes if m.id in after and m.kind in ("stmt", "test", "iter", "with_enter") and m.ast is not None and m is not rn
+                   and (expr_may_raise(m.ast) if not isinstance(m.ast, (ast.Assign,)) else (expr_may_raise(m.ast.value) or any(isinstance(t, ast.Subscript) and False for t in m.ast.targets)))]
+            # stores into a dict keyed by fileno (active_channels[...] = self) are bookkeeping of the registration itself
+            bad = [m for m in bad if not (isinstance(m.ast, ast.Assign) and isinstance(m.ast.value, ast.Name))]
+            if bad:
+                ctx.r.violation(rid, key_of(f, None, "fallible-after-registration::" + norm(bad[0].ast)[:50]),
+                                "%s: %s can fail after the channel was registered in the socket map: the half-built channel stays polled and its next event raises outside any handler"
+                                % (f.qual, norm(bad[0].ast)[:60]), f.loc(bad[0].ast))
+            else:
+                ctx.r.ok(rid, "%s: nothing fallible after the registering call %s" % (f.name, norm(rn.ast)[:50]), f.loc(rn.ast))
+    ctx.r.floor(rid, n_checked, 2, "registering calls on the construction chain")
+
+
+RULES = [rule_r1, rule_r2, rule_r3, rule_r4, rule_r5, rule_r6, rule_r7, rule_r8]
 
 
 from ..selftest import M, T, V  # noqa: E402
@@ -491,6 +529,7 @@ selftest = [
     M("flush-exception-no-mark", "channel.py", "                    self.logger.exception(\"Socket error\")\n                self.will_close = True\n\n                return (False, True)\n            except Exception:", "                    self.logger.exception(\"Socket error\")\n\n                return (False, True)\n            except Exception:", "R5"),
     M("map-mutation-elsewhere", "channel.py", "        self.requests = []\n\n    def check_client_disconnected", "        self.requests = []\n        self._map.pop(sock.fileno(), None)\n\n    def check_client_disconnected", "R7"),
     T("handle_read-no-handler-still-contained-by-loop", "channel.py", "        try:\n            data = self.recv(self.adj.recv_bytes)\n        except OSError:\n            if self.adj.log_socket_errors:\n                self.logger.exception(\"Socket error\")\n            self.handle_close()\n\n            return\n", "        data = self.recv(self.adj.recv_bytes)\n"),
+    V("sockopt-moved-after-registration", "mutant", [("channel.py", "        self.sendbuf_len = sock.getsockopt(socket.SOL_SOCKET, socket.SO_SNDBUF)\n", ""), ("channel.py", "        wasyncore.dispatcher.__init__(self, sock, map=map)\n", "        wasyncore.dispatcher.__init__(self, sock, map=map)\n        self.sendbuf_len = self.socket.getsockopt(socket.SOL_SOCKET, socket.SO_SNDBUF)\n")], "R8"),
     T("do_close-positional", "channel.py", "_, exception = self._flush_exception(self._flush_some, do_close=False)", "_, exception = self._flush_exception(self._flush_some, False)"),
     T("errno-added", "wasyncore.py", "ECONNABORTED, EPIPE, EBADF})", "ECONNABORTED, EPIPE, EBADF, EINTR})"),
     T("construct-own-try", "server.py", "            addr = self.fix_addr(addr)\n            self.channel_class(self, conn, addr, self.adj, map=self._map)\n", "            addr = self.fix_addr(addr)\n            try:\n                self.channel_class(self, conn, addr, self.adj, map=self._map)\n            except OSError:\n                return\n"),
